@@ -487,7 +487,7 @@ class Gen:
 
     def valid_program(self, nfun):
         r = self.rnd
-        nlib = r.choice([0, 0, 1, 2]) if nfun >= 3 else 0
+        nlib = r.choice([0, 1, 1, 2]) if nfun >= 3 else 0
         self.owns = r.choice(["NoOwn", "Initializes"]) if nlib else "NoOwn"
         funs = [{"mut": r.choice(["NonPay", "Pay"]), "vis": "Ctor", "lib": False, "body": ("SSkip",)}]
         self.funs, self.W, self.U = funs, {0: set()}, {0: False}
@@ -717,7 +717,10 @@ def mutants(prog, rnd, per_prog):
         byrule.setdefault(c[0], []).append(c)
     rules = sorted(byrule)
     rnd.shuffle(rules)
-    for rule in rules[:per_prog]:
+    # rules that need special skeletons (modules, callee writing an iterated array) are rare: always take them
+    rare = [x for x in rules if "lib" in x or "via_call" in x]
+    rules = rare + [x for x in rules if x not in rare]
+    for rule in rules[:max(per_prog, len(rare) + per_prog - 2)]:
         pool = byrule[rule]
         if rule.startswith("pure_") and rnd.random() < 0.8:
             pref = [c for c in pool if c[2] == "expr" and funs[c[1]]["vis"] == "External" and _in_return(funs[c[1]]["body"], c[3])]
